@@ -785,14 +785,54 @@ Proof.
   - eapply new_page_str; [|exact H]. destruct HS. constructor; cbn; auto.
 Qed.
 
+(* ---- ghost bookkeeping of allocate: what it obtains is what it reports; destructor fields untouched ---- *)
+Definition ev_pages (e : list ev) : list Z := flat_map (fun x => match x with EPageAlloc p => [p] | _ => [] end) e.
+Definition ev_ups (e : list ev) : list (Z * Z * Z * Z) :=
+  flat_map (fun x => match x with EUpAlloc u p b a => [(u, p, b, a)] | _ => [] end) e.
+
+Definition ghost_rel (s s' : st) (e : list ev) : Prop :=
+  gpages s' = rev (ev_pages e) ++ gpages s /\ gups s' = rev (ev_ups e) ++ gups s /\ up s' = up s /\
+  (forall u p b a, In (u, p, b, a) (ev_ups e) -> u = up s) /\
+  dtop s' = dtop s /\ darrs s' = darrs s /\ gdtors s' = gdtors s.
+
+Ltac ghost_done := unfold ghost_rel; cbn; repeat split; auto;
+  intros u p b0 a0 Hin; cbn in Hin; unfold In in Hin; intuition congruence.
+
+Lemma oversize_ghost : forall s b a o s' r e, alloc_oversize s b a o = (s', r, e) -> ghost_rel s s' e.
+Proof.
+  intros s b a o s' r e H. unfold alloc_oversize in H.
+  destruct (has_oversize_slot (otop s)); injection H as Hs Hr He; subst s' e; ghost_done.
+Qed.
+
+Lemma new_array_ghost : forall s b page o s' r e, alloc_new_array P s b page o = (s', r, e) -> ghost_rel s s' e.
+Proof.
+  intros s b page o s' r e H. unfold alloc_new_array in H.
+  destruct (old_tail_fits _ _); [|destruct (new_tail_fits _ _)]; injection H as Hs Hr He; subst s' e; ghost_done.
+Qed.
+
+Lemma new_page_ghost : forall s b a o s' r e, alloc_new_page P s b a o = (s', r, e) -> ghost_rel s s' e.
+Proof.
+  intros s b a o s' r e H. unfold alloc_new_page in H.
+  destruct (page_path b a P); [|eapply oversize_ghost; eauto].
+  cbn in H. destruct (has_page_slot (ptop s)).
+  - injection H as Hs Hr He; subst s' e; ghost_done.
+  - destruct (alloc_new_array P _ b (o1 o) o) as [[s2 r2] e2] eqn:E.
+    injection H as Hs Hr He; subst s' e. apply new_array_ghost in E.
+    destruct E as (E1 & E2 & E3 & E4 & E5 & E6 & E7). cbn in *.
+    unfold ghost_rel. cbn. rewrite E1, E2. rewrite <- app_assoc. repeat split; auto.
+Qed.
+
+Lemma core_ghost_rel : forall s b a o s' r e, alloc_core P s b a o = (s', r, e) -> ghost_rel s s' e.
+Proof.
+  intros s b a o s' r e H. unfold alloc_core in H. cbn in H.
+  destruct (fast_fits _ _).
+  - injection H as Hs Hr He; subst s' e; ghost_done.
+  - apply new_page_ghost in H. exact H.
+Qed.
+
 Lemma core_frame_d : forall s b a o s' r e, alloc_core P s b a o = (s', r, e) ->
   dtop s' = dtop s /\ darrs s' = darrs s /\ gdtors s' = gdtors s.
-Proof.
-  intros s b a o s' r e H.
-  unfold alloc_core, alloc_new_page, alloc_new_array, alloc_oversize in H. cbn in H.
-  repeat match type of H with context [if ?c then _ else _] => destruct c end;
-    injection H as Hs Hr He; subst s'; cbn; auto.
-Qed.
+Proof. intros s b a o s' r e H. apply core_ghost_rel in H. destruct H as (_ & _ & _ & _ & H). exact H. Qed.
 
 Lemma str_init : Str init.
 Proof. constructor; cbn; auto; apply chain_nil. Qed.
@@ -868,19 +908,11 @@ Proof.
 Qed.
 
 (* ---- the ghost lists are exactly the allocator / upstream / registration events of the trace ---- *)
-Definition ev_pages (e : list ev) : list Z := flat_map (fun x => match x with EPageAlloc p => [p] | _ => [] end) e.
-Definition ev_ups (e : list ev) : list (Z * Z * Z * Z) :=
-  flat_map (fun x => match x with EUpAlloc u p b a => [(u, p, b, a)] | _ => [] end) e.
-
 Lemma core_ghost : forall s b a o s' r e, alloc_core P s b a o = (s', r, e) ->
   gpages s' = rev (ev_pages e) ++ gpages s /\ gups s' = rev (ev_ups e) ++ gups s /\ up s' = up s /\
   (forall u p b0 a0, In (u, p, b0, a0) (ev_ups e) -> u = up s).
 Proof.
-  intros s b a o s' r e H.
-  unfold alloc_core, alloc_new_page, alloc_new_array, alloc_oversize in H. cbn in H.
-  repeat match type of H with context [if ?c then _ else _] => destruct c end;
-    injection H as Hs Hr He; subst s' e; cbn; repeat split; auto;
-    intros u p b0 a0 Hin; cbn in Hin; unfold In in Hin; intuition congruence.
+  intros s b a o s' r e H. apply core_ghost_rel in H. destruct H as (H1 & H2 & H3 & H4 & _). auto.
 Qed.
 
 Theorem mr_ghost_is_trace : forall s o s' r e, step P s o = (s', r, e) -> o <> Release ->
